@@ -886,9 +886,8 @@ func (s *vSchema) gen(o *vGenOpt, m *vMsg, depth int) reflect.Value {
 			cnt[f.group]++
 		}
 	}
-	for g, n := range cnt {
-		_ = n
-		if r.Intn(100) < 12 {
+	for g := 0; g < m.groups; g++ { // in group order: a map iteration here would make the stream depend on the run
+		if cnt[g] == 0 || r.Intn(100) < 12 {
 			continue
 		}
 		var cands []*vField
